@@ -301,7 +301,7 @@ def P_skel(g):
 
 
 def run(ctx):
-    for i in ctx.indices(900 if ctx.tier == 'quick' else 30000, 'random'):
+    for i in ctx.indices(1800 if ctx.tier == 'quick' else 30000, 'random'):
         one(ctx, i)
 
 
